@@ -303,7 +303,11 @@ def check(ctx):
             sw = [rv for b, i, a, f, rv in lib.field_writes(st_, adt["path"]) if f == s]
             ew = [(b, rv) for b, i, a, f, rv in lib.field_writes(en, adt["path"]) if f == s]
             okn = bool(ew) and all(lib.writes_none(en, rv) for b, rv in ew)
-            w = lib.path_to_return_avoiding(en, [0], [b for b, rv in ew])
+            # `self.slot.take()` (its result dropped or not) leaves None in the slot, too
+            tk = [b for b, t, n, ch in lib.field_method_calls(en, adt["path"], s) if lib.tail(n, 2) == "Option::take" and not ch]
+            if tk and (okn or not ew):
+                okn = True
+            w = lib.path_to_return_avoiding(en, [0], [b for b, rv in ew] + tk)
             ctx.check(okn and w is None, "C07.e", "DespawnAccessTracker::end:clears-%s" % s, "%s:%d" % (en.file, en.line),
                       "end() stores None into %s on every path" % s, "end() does not clear the handle slot %s that start() fills (the reactor would never be collected)" % s)
     except mir.AnchorLost as e:
@@ -411,7 +415,7 @@ def classify_despawn(prog, body, b, t, n2):
             if o[0] == "call":
                 fr = op_fn(bd.blocks[o[1]]["term"]["func"])
                 nm = lib.tail(mir.fn_name(fr), 2) if fr else ""
-                if nm == "AutoDespawner::try_recv":
+                if nm == "AutoDespawner::try_recv" or nm == _despawner_recv_name(prog):
                     c = "gc-receiver"
                 elif lib.tail(nm, 1) == "try_recv" and any(f_[0].endswith("::AutoDespawner") and f_[1] == "receiver"
                                                           for f_, ch_ in lib.receiver_chains(bd, bd.blocks[o[1]]["term"]["args"][0])):
@@ -434,6 +438,17 @@ def classify_despawn(prog, body, b, t, n2):
 
 
 _RH = {}
+_DRN = {}
+
+
+def _despawner_recv_name(prog):
+    """`AutoDespawner::<the method that reads the despawn channel>` under its current (possibly renamed) name"""
+    if id(prog) not in _DRN:
+        try:
+            _DRN[id(prog)] = lib.tail(A.method(prog, "AutoDespawner", "try_recv").path, 2)
+        except mir.AnchorLost:
+            _DRN[id(prog)] = None
+    return _DRN[id(prog)]
 
 
 def _release_helper_path(prog):
